@@ -175,7 +175,10 @@ func CheckC13(opt C13Options) int {
 	if opt.Tier == "thorough" {
 		nProj, faultPer, fine = 16000, 3, 15
 	}
-	const maxY = 150_000_000
+	// a statement budget, not a time-out: the compiler is super-linear on deeply nested input
+	// (2 800 nested '[' take the unrewritten compiler 1.8 s and about 2*10^8 statements), which is slow but
+	// bounded; the budget is 25 times that
+	const maxY = 5_000_000_000
 
 	type caseT struct {
 		unit Unit
@@ -372,7 +375,7 @@ func CheckC13(opt C13Options) int {
 			"stubbed_components":              "Go scheduler, sync, sync/atomic, map iteration order (simulated, seeded); as/ld stand-in in the other runs; faulted calls return the injected error instead of reaching the OS",
 		},
 		Assumptions: []string{
-			"termination is decided by a deterministic budget of 150 million executed statements per compile (a normal compile of these inputs executes under 1 million) plus a wall-clock cap",
+			"termination is decided by a deterministic budget of 5*10^9 executed statements per compile (a normal compile of these inputs executes under 10^6, the slowest terminating input seen about 2*10^8) plus a wall-clock cap of 4 minutes per compile",
 			"a diagnostic location one line or one column past the end of an input file still counts as inside it (end-of-file diagnostics)",
 			"under injected faults only the narrow relaxation of DESIGN.md §6 C13 applies: no crash, no hang, failure reported when the artifact is missing, nothing left at the output path after a failure",
 		},
